@@ -226,6 +226,10 @@ Definition angle_ok (t : expr) (s : R) (sel : v4 -> v4 -> v4 -> v4 * v4 * v4) : 
   is_event E1 x1 y1 z1 E2 x2 y2 z2 E3 x3 y3 z3 m0 m1 m2 m3 m12 m13 m23 ->
   interior x2 y2 z2 x3 y3 z3 ->
   let uab := sel (V4 E1 x1 y1 z1) (V4 E2 x2 y2 z2) (V4 E3 x3 y3 z3) in
+  (0 < gram (fst (fst uab)) (snd (fst uab)) (snd (fst uab)) /\
+   0 < gram (fst (fst uab)) (snd uab) (snd uab) /\
+   (gram (fst (fst uab)) (snd (fst uab)) (snd uab))^2
+   <= gram (fst (fst uab)) (snd (fst uab)) (snd (fst uab)) * gram (fst (fst uab)) (snd uab) (snd uab)) /\
   wdR (envD m0 m1 m2 m3 m12 m13 m23) t /\
   denR (envD m0 m1 m2 m3 m12 m13 m23) t = acos (s * cosf (fst (fst uab)) (snd (fst uab)) (snd uab)).
 
@@ -255,6 +259,17 @@ Proof.
   - destruct (Req_dec B 0) as [Z|]; [rewrite Z in *; lra|lra].
 Qed.
 
+Ltac gram_positive E x2 y2 z2 x3 y3 z3 :=
+  first [ apply gram_pair; [assumption|assumption|
+            replace (cross2 _ _) with (cross2 (V4 0 x2 y2 z2) (V4 0 x3 y3 z3)) by (v4_unfold; ring);
+            assumption]
+        | match goal with |- 0 < ?g =>
+            first [ replace g with (E^2 * ((- (x2 + x3))^2 + (- (y2 + y3))^2 + (- (z2 + z3))^2))
+                      by (v4_unfold; ring)
+                  | replace g with (E^2 * (x2^2 + y2^2 + z2^2)) by (v4_unfold; ring)
+                  | replace g with (E^2 * (x3^2 + y3^2 + z3^2)) by (v4_unfold; ring) ]
+          end; apply Rmult_lt_0_compat; [apply pow_lt; assumption|assumption] ].
+
 Ltac solve_angle :=
   unfold angle_ok;
   intros E1 x1 y1 z1 E2 x2 y2 z2 E3 x3 y3 z3 m0 m1 m2 m3 m12 m13 m23 Hev Hint;
@@ -283,6 +298,16 @@ Ltac solve_angle :=
   assert (M0 : 0 < E1 + E2 + E3) by lra;
   cbv zeta; cbn [fst snd];
   match goal with
+  | |- (0 < ?A /\ 0 < ?B /\ ?G ^ 2 <= _) /\ _ =>
+      assert (PA : 0 < A); [gram_positive (E1+E2+E3) x2 y2 z2 x3 y3 z3|];
+      assert (PB : 0 < B); [gram_positive (E1+E2+E3) x2 y2 z2 x3 y3 z3|];
+      assert (CS : G ^ 2 <= A * B);
+      [ apply gram_cs;
+        [ match goal with |- vE ?u <> 0 => assert (0 < vE u) by (cbn [vE vadd]; lra); lra end
+        | first [ apply C1 | apply C2 | apply C3 | apply C12 | apply C13 | apply C23 | apply C0 ] ]
+      | split; [split; [assumption|split; [assumption|assumption]]|] ]
+  end;
+  match goal with
   | |- wdR ?rho ?t /\ _ = acos (?s * cosf ?u ?a ?b) =>
       assert (TA : wdR rho t /\ denR rho t =
                    acos ((s * gram u a b) / (sqrt (gram u a a) * sqrt (gram u b b))));
@@ -296,36 +321,448 @@ Ltac solve_angle :=
           pow4 m1; pow4 m2; pow4 m3; pow4 m12; pow4 m13; pow4 m23;
           rewrite ?Hm1, ?Hm2, ?Hm3, ?Hs1, ?Hs2, ?Hs3;
           first [ left; split; v4_unfold; field | right; split; v4_unfold; field ]
-        | | | ]
+        | assumption | assumption
+        | match goal with |- (?s * ?g)^2 <= _ => replace ((s * g)^2) with (g^2) by ring end; assumption ]
       | destruct TA as [TA1 TA2]; split; [exact TA1|];
         rewrite TA2; f_equal; unfold cosf, Rdiv; ring ]
-  end;
-  [ (* 0 < gram u a a *)
-    first [ apply gram_pair; [assumption|assumption|
-              replace (cross2 _ _) with (cross2 (V4 0 x2 y2 z2) (V4 0 x3 y3 z3)) by (v4_unfold; ring);
-              exact Hint]
-          | match goal with |- 0 < ?g =>
-              first [ replace g with ((E1+E2+E3)^2 * ((- (x2 + x3))^2 + (- (y2 + y3))^2 + (- (z2 + z3))^2))
-                        by (v4_unfold; ring)
-                    | replace g with ((E1+E2+E3)^2 * (x2^2 + y2^2 + z2^2)) by (v4_unfold; ring)
-                    | replace g with ((E1+E2+E3)^2 * (x3^2 + y3^2 + z3^2)) by (v4_unfold; ring) ]
-            end; apply Rmult_lt_0_compat; [apply pow_lt; exact M0|assumption] ]
-  | first [ apply gram_pair; [assumption|assumption|
-              replace (cross2 _ _) with (cross2 (V4 0 x2 y2 z2) (V4 0 x3 y3 z3)) by (v4_unfold; ring);
-              exact Hint]
-          | match goal with |- 0 < ?g =>
-              first [ replace g with ((E1+E2+E3)^2 * ((- (x2 + x3))^2 + (- (y2 + y3))^2 + (- (z2 + z3))^2))
-                        by (v4_unfold; ring)
-                    | replace g with ((E1+E2+E3)^2 * (x2^2 + y2^2 + z2^2)) by (v4_unfold; ring)
-                    | replace g with ((E1+E2+E3)^2 * (x3^2 + y3^2 + z3^2)) by (v4_unfold; ring) ]
-            end; apply Rmult_lt_0_compat; [apply pow_lt; exact M0|assumption] ]
-  | (* Cauchy-Schwarz *)
-    match goal with |- (?s * ?g)^2 <= _ => replace ((s * g)^2) with (g^2) by ring end;
-    apply gram_cs;
-    [ match goal with |- vE ?u <> 0 => assert (0 < vE u) by (cbn [vE vadd]; lra); lra end
-    | match goal with |- 0 <= mdot ?u ?u =>
-        first [ apply C1 | apply C2 | apply C3 | apply C12 | apply C13 | apply C23 | apply C0 ] end ] ].
+  end.
 
 (* theta-hat: u = parent *)
 Lemma that_1_2_ok : angle_ok gen_that_1_2 1 (fun p1 p2 p3 => (vadd (vadd p1 p2) p3, p1, p2)).
 Proof. solve_angle. Qed.
+Lemma that_2_3_ok : angle_ok gen_that_2_3 1 (fun p1 p2 p3 => (vadd (vadd p1 p2) p3, p2, p3)).
+Proof. solve_angle. Qed.
+Lemma that_3_1_ok : angle_ok gen_that_3_1 1 (fun p1 p2 p3 => (vadd (vadd p1 p2) p3, p3, p1)).
+Proof. solve_angle. Qed.
+
+(* scattering angles: u = p_i + p_j, a = p_i, b = spectator; sign -1 *)
+Lemma scat_1_2_ok : angle_ok gen_scat_1_2 (-1) (fun p1 p2 p3 => (vadd p1 p2, p1, p3)).
+Proof. solve_angle. Qed.
+Lemma scat_2_1_ok : angle_ok gen_scat_2_1 (-1) (fun p1 p2 p3 => (vadd p1 p2, p2, p3)).
+Proof. solve_angle. Qed.
+Lemma scat_1_3_ok : angle_ok gen_scat_1_3 (-1) (fun p1 p2 p3 => (vadd p1 p3, p1, p2)).
+Proof. solve_angle. Qed.
+Lemma scat_3_1_ok : angle_ok gen_scat_3_1 (-1) (fun p1 p2 p3 => (vadd p1 p3, p3, p2)).
+Proof. solve_angle. Qed.
+Lemma scat_2_3_ok : angle_ok gen_scat_2_3 (-1) (fun p1 p2 p3 => (vadd p2 p3, p2, p1)).
+Proof. solve_angle. Qed.
+Lemma scat_3_2_ok : angle_ok gen_scat_3_2 (-1) (fun p1 p2 p3 => (vadd p2 p3, p3, p1)).
+Proof. solve_angle. Qed.
+
+(* alignment angles: u = p_i, a = momentum of subsystem (j), b = momentum of subsystem (k) *)
+Lemma zeta_1_1_3_ok : angle_ok gen_zeta_1_1_3 1 (fun p1 p2 p3 => (p1, vadd p2 p3, vadd p1 p2)).
+Proof. solve_angle. Qed.
+Lemma zeta_1_2_1_ok : angle_ok gen_zeta_1_2_1 1 (fun p1 p2 p3 => (p1, vadd p1 p3, vadd p2 p3)).
+Proof. solve_angle. Qed.
+Lemma zeta_1_2_3_ok : angle_ok gen_zeta_1_2_3 1 (fun p1 p2 p3 => (p1, vadd p1 p3, vadd p1 p2)).
+Proof. solve_angle. Qed.
+Lemma zeta_2_2_1_ok : angle_ok gen_zeta_2_2_1 1 (fun p1 p2 p3 => (p2, vadd p1 p3, vadd p2 p3)).
+Proof. solve_angle. Qed.
+Lemma zeta_2_3_2_ok : angle_ok gen_zeta_2_3_2 1 (fun p1 p2 p3 => (p2, vadd p1 p2, vadd p1 p3)).
+Proof. solve_angle. Qed.
+Lemma zeta_2_3_1_ok : angle_ok gen_zeta_2_3_1 1 (fun p1 p2 p3 => (p2, vadd p1 p2, vadd p2 p3)).
+Proof. solve_angle. Qed.
+Lemma zeta_3_3_2_ok : angle_ok gen_zeta_3_3_2 1 (fun p1 p2 p3 => (p3, vadd p1 p2, vadd p1 p3)).
+Proof. solve_angle. Qed.
+Lemma zeta_3_1_3_ok : angle_ok gen_zeta_3_1_3 1 (fun p1 p2 p3 => (p3, vadd p2 p3, vadd p1 p2)).
+Proof. solve_angle. Qed.
+Lemma zeta_3_1_2_ok : angle_ok gen_zeta_3_1_2 1 (fun p1 p2 p3 => (p3, vadd p2 p3, vadd p1 p3)).
+Proof. solve_angle. Qed.
+
+(* ================= composing the per-tree facts into statements over ALL tuples ========= *)
+
+Lemma cosf_sym u a b : cosf u a b = cosf u b a.
+Proof. unfold cosf, gram. rewrite (Rmult_comm (sqrt _)). f_equal. ring_simplify.
+  replace (mdot a b) with (mdot b a) by (unfold mdot; ring). ring. Qed.
+
+Lemma neg_case ρ t t' v : t = neg_tree t' -> wdR ρ t' /\ denR ρ t' = v ->
+  wdR ρ t /\ denR ρ t = -1 * v.
+Proof.
+  intros -> [W D]. split; [now apply neg_tree_sound|].
+  rewrite (proj2 (neg_tree_sound ρ t')), D. ring.
+Qed.
+
+Lemma event_sdot_pos E1 x1 y1 z1 E2 x2 y2 z2 E3 x3 y3 z3 m0 m1 m2 m3 m12 m13 m23 :
+  is_event E1 x1 y1 z1 E2 x2 y2 z2 E3 x3 y3 z3 m0 m1 m2 m3 m12 m13 m23 ->
+  interior x2 y2 z2 x3 y3 z3 ->
+  0 < m0 /\ 0 < sdot (V4 E1 x1 y1 z1) (V4 E1 x1 y1 z1) /\
+  0 < sdot (V4 E2 x2 y2 z2) (V4 E2 x2 y2 z2) /\ 0 < sdot (V4 E3 x3 y3 z3) (V4 E3 x3 y3 z3).
+Proof.
+  intros Hev Hint.
+  destruct Hev as (HE1 & HE2 & HE3 & Hx & Hy & Hz & H0 & _).
+  assert (X1 : x1 = - (x2 + x3)) by lra. assert (Y1 : y1 = - (y2 + y3)) by lra.
+  assert (Z1 : z1 = - (z2 + z3)) by lra. subst x1 y1 z1. unfold interior in Hint.
+  split; [lra|].
+  destruct (sdot_pos_of_cross _ _ Hint) as [S2 S3].
+  destruct (sdot_pos_of_cross (V4 0 (- (x2 + x3)) (- (y2 + y3)) (- (z2 + z3))) (V4 0 x2 y2 z2)) as [S1 _].
+  { replace (cross2 _ _) with (cross2 (V4 0 x2 y2 z2) (V4 0 x3 y3 z3)) by (v4_unfold; ring). exact Hint. }
+  unfold sdot in *. cbn [vx vy vz] in *. repeat split; assumption.
+Qed.
+
+Section OnEvent.
+  Variables E1 x1 y1 z1 E2 x2 y2 z2 E3 x3 y3 z3 m0 m1 m2 m3 m12 m13 m23 : R.
+  Hypothesis Hev : is_event E1 x1 y1 z1 E2 x2 y2 z2 E3 x3 y3 z3 m0 m1 m2 m3 m12 m13 m23.
+  Hypothesis Hint : interior x2 y2 z2 x3 y3 z3.
+  Let P1 := V4 E1 x1 y1 z1.  Let P2 := V4 E2 x2 y2 z2.  Let P3 := V4 E3 x3 y3 z3.
+  Let ρ := envD m0 m1 m2 m3 m12 m13 m23.
+
+  Ltac use L := destruct (L _ _ _ _ _ _ _ _ _ _ _ _ _ _ _ _ _ _ _ Hev Hint) as (_ & W & D);
+                cbv zeta in W, D; cbn [fst snd] in W, D.
+
+  (* ---- theta-hat ---- *)
+  Lemma p0_rest : vx (pmom P1 P2 P3 0) = 0 /\ vy (pmom P1 P2 P3 0) = 0 /\ vz (pmom P1 P2 P3 0) = 0
+                  /\ vE (pmom P1 P2 P3 0) <> 0.
+  Proof.
+    destruct Hev as (HE1 & HE2 & HE3 & Hx & Hy & Hz & _).
+    unfold pmom, P1, P2, P3, vadd. cbn [vE vx vy vz]. repeat split; lra.
+  Qed.
+
+  Lemma that_geometric i j : (1 <= i <= 3)%nat -> (1 <= j <= 3)%nat -> i <> j ->
+    exists t, lookup2 that_tab i j = Some (inl t) /\ wdR ρ t /\
+              denR ρ t = tsign i j * acos (cos3 (pmom P1 P2 P3 i) (pmom P1 P2 P3 j)).
+  Proof.
+    intros Hi Hj Hij. unfold ρ, P1, P2, P3.
+    destruct (event_sdot_pos _ _ _ _ _ _ _ _ _ _ _ _ _ _ _ _ _ _ _ Hev Hint) as (_ & S1 & S2 & S3).
+    destruct p0_rest as (R1 & R2 & R3 & R4).
+    assert (Cs : forall a b, 0 < sdot a a -> 0 < sdot b b ->
+                 cosf (pmom P1 P2 P3 0) a b = cos3 a b) by (intros; now apply cosf_rest).
+    unfold pmom, P1, P2, P3 in Cs.
+    destruct i as [|[|[|[|]]]], j as [|[|[|[|]]]]; try lia; unfold tsign; cbn [nxt Nat.eqb pmom].
+    - exists gen_that_1_2. split; [reflexivity|]. use that_1_2_ok.
+      split; [exact W|]. rewrite D, Rmult_1_l, Rmult_1_l. f_equal. now apply Cs.
+    - exists gen_that_1_3. split; [reflexivity|].
+      apply (neg_case _ _ gen_that_3_1); [vm_compute; reflexivity|]. use that_3_1_ok.
+      split; [exact W|]. rewrite D, Rmult_1_l. f_equal. rewrite cosf_sym. now apply Cs.
+    - exists gen_that_2_1. split; [reflexivity|].
+      apply (neg_case _ _ gen_that_1_2); [vm_compute; reflexivity|]. use that_1_2_ok.
+      split; [exact W|]. rewrite D, Rmult_1_l. f_equal. rewrite cosf_sym. now apply Cs.
+    - exists gen_that_2_3. split; [reflexivity|]. use that_2_3_ok.
+      split; [exact W|]. rewrite D, Rmult_1_l, Rmult_1_l. f_equal. now apply Cs.
+    - exists gen_that_3_1. split; [reflexivity|]. use that_3_1_ok.
+      split; [exact W|]. rewrite D, Rmult_1_l, Rmult_1_l. f_equal. now apply Cs.
+    - exists gen_that_3_2. split; [reflexivity|].
+      apply (neg_case _ _ gen_that_2_3); [vm_compute; reflexivity|]. use that_2_3_ok.
+      split; [exact W|]. rewrite D, Rmult_1_l. f_equal. rewrite cosf_sym. now apply Cs.
+  Qed.
+
+  (* |cos| <= 1 for the Euclidean cosine (Cauchy-Schwarz / Lagrange), recorded for the report *)
+  Lemma cos3_range a b : 0 < sdot a a -> 0 < sdot b b -> -1 <= cos3 a b <= 1.
+  Proof.
+    intros Ha Hb. unfold cos3. apply cos_range; try assumption.
+    assert (L : sdot a a * sdot b b - (sdot a b)^2 = cross2 a b) by (v4_unfold; ring).
+    assert (0 <= cross2 a b).
+    { unfold cross2. repeat apply Rplus_le_le_0_compat; apply pow2_ge_0. }
+    lra.
+  Qed.
+
+  (* ---- scattering angles ---- *)
+  Lemma scat_geometric i j : (1 <= i <= 3)%nat -> (1 <= j <= 3)%nat -> i <> j ->
+    exists t, lookup2 scat_tab i j = Some (inl t) /\ wdR ρ t /\
+              denR ρ t = acos (- cosf (psub P1 P2 P3 (third i j)) (pmom P1 P2 P3 i)
+                                      (pmom P1 P2 P3 (third i j))).
+  Proof.
+    intros Hi Hj Hij. unfold ρ, P1, P2, P3.
+    destruct i as [|[|[|[|]]]], j as [|[|[|[|]]]]; try lia; cbn [third Nat.sub pmom psub].
+    - exists gen_scat_1_2. split; [reflexivity|]. use scat_1_2_ok. split; [exact W|].
+      rewrite D. f_equal. ring.
+    - exists gen_scat_1_3. split; [reflexivity|]. use scat_1_3_ok. split; [exact W|].
+      rewrite D. f_equal. ring.
+    - exists gen_scat_2_1. split; [reflexivity|]. use scat_2_1_ok. split; [exact W|].
+      rewrite D. f_equal. ring.
+    - exists gen_scat_2_3. split; [reflexivity|]. use scat_2_3_ok. split; [exact W|].
+      rewrite D. f_equal. ring.
+    - exists gen_scat_3_1. split; [reflexivity|]. use scat_3_1_ok. split; [exact W|].
+      rewrite D. f_equal. ring.
+    - exists gen_scat_3_2. split; [reflexivity|]. use scat_3_2_ok. split; [exact W|].
+      rewrite D. f_equal. ring.
+  Qed.
+
+  Lemma cosf_partner_l a a' b : cosf (vadd a a') a' b = - cosf (vadd a a') a b.
+  Proof.
+    unfold cosf.
+    replace (gram (vadd a a') a' b) with (- gram (vadd a a') a b) by (v4_unfold; ring).
+    replace (gram (vadd a a') a' a') with (gram (vadd a a') a a) by (v4_unfold; ring).
+    unfold Rdiv. ring.
+  Qed.
+  Lemma cosf_partner_r a a' b : cosf (vadd a' a) a' b = - cosf (vadd a' a) a b.
+  Proof.
+    unfold cosf.
+    replace (gram (vadd a' a) a' b) with (- gram (vadd a' a) a b) by (v4_unfold; ring).
+    replace (gram (vadd a' a) a' a') with (gram (vadd a' a) a a) by (v4_unfold; ring).
+    unfold Rdiv. ring.
+  Qed.
+
+  Lemma scat_sum_pi i j : (1 <= i <= 3)%nat -> (1 <= j <= 3)%nat -> i <> j ->
+    exists t1 t2, lookup2 scat_tab i j = Some (inl t1) /\ lookup2 scat_tab j i = Some (inl t2) /\
+                  wdR ρ t1 /\ wdR ρ t2 /\ denR ρ t1 + denR ρ t2 = PI.
+  Proof.
+    intros Hi Hj Hij.
+    destruct (scat_geometric i j Hi Hj Hij) as (t1 & L1 & W1 & D1).
+    destruct (scat_geometric j i Hj Hi (not_eq_sym Hij)) as (t2 & L2 & W2 & D2).
+    exists t1, t2. repeat split; try assumption. rewrite D1, D2.
+    destruct i as [|[|[|[|]]]], j as [|[|[|[|]]]]; try lia; cbn [third Nat.sub pmom psub];
+      first [ rewrite (cosf_partner_l _ _ _) | rewrite (cosf_partner_r _ _ _) ];
+      rewrite Ropp_involutive, acos_opp; ring.
+  Qed.
+
+  (* ---- alignment angles, rotated state i in {1,2,3} ---- *)
+  Lemma zeta_geometric i j k : (1 <= i <= 3)%nat -> (1 <= j <= 3)%nat -> (1 <= k <= 3)%nat -> j <> k ->
+    exists t, lookup3 zeta_tab i j k = Some (inl t) /\ wdR ρ t /\
+              denR ρ t = zsign i j k * acos (cosf (pmom P1 P2 P3 i) (psub P1 P2 P3 j) (psub P1 P2 P3 k)).
+  Proof.
+    intros Hi Hj Hk Hjk. unfold ρ, P1, P2, P3.
+    Ltac zpos G L := exists G; split; [reflexivity|];
+                     destruct (L _ _ _ _ _ _ _ _ _ _ _ _ _ _ _ _ _ _ _ Hev Hint) as (_ & W & D);
+                     cbv zeta in W, D; cbn [fst snd] in W, D; split; [exact W|];
+                     rewrite D, !Rmult_1_l; reflexivity.
+    Ltac zneg G G' L := exists G; split; [reflexivity|];
+                        apply (neg_case _ _ G'); [vm_compute; reflexivity|];
+                        destruct (L _ _ _ _ _ _ _ _ _ _ _ _ _ _ _ _ _ _ _ Hev Hint) as (_ & W & D);
+                        cbv zeta in W, D; cbn [fst snd] in W, D;
+                        split; [exact W|]; rewrite D, Rmult_1_l; f_equal; apply cosf_sym.
+    destruct i as [|[|[|[|]]]], j as [|[|[|[|]]]], k as [|[|[|[|]]]]; try lia;
+      unfold zsign; cbn [nxt Nat.eqb orb pmom psub].
+    - zneg gen_zeta_1_1_2 gen_zeta_1_2_1 zeta_1_2_1_ok.
+    - zpos gen_zeta_1_1_3 zeta_1_1_3_ok.
+    - zpos gen_zeta_1_2_1 zeta_1_2_1_ok.
+    - zpos gen_zeta_1_2_3 zeta_1_2_3_ok.
+    - zneg gen_zeta_1_3_1 gen_zeta_1_1_3 zeta_1_1_3_ok.
+    - zneg gen_zeta_1_3_2 gen_zeta_1_2_3 zeta_1_2_3_ok.
+    - zneg gen_zeta_2_1_2 gen_zeta_2_2_1 zeta_2_2_1_ok.
+    - zneg gen_zeta_2_1_3 gen_zeta_2_3_1 zeta_2_3_1_ok.
+    - zpos gen_zeta_2_2_1 zeta_2_2_1_ok.
+    - zneg gen_zeta_2_2_3 gen_zeta_2_3_2 zeta_2_3_2_ok.
+    - zpos gen_zeta_2_3_1 zeta_2_3_1_ok.
+    - zpos gen_zeta_2_3_2 zeta_2_3_2_ok.
+    - zpos gen_zeta_3_1_2 zeta_3_1_2_ok.
+    - zpos gen_zeta_3_1_3 zeta_3_1_3_ok.
+    - zneg gen_zeta_3_2_1 gen_zeta_3_1_2 zeta_3_1_2_ok.
+    - zneg gen_zeta_3_2_3 gen_zeta_3_3_2 zeta_3_3_2_ok.
+    - zneg gen_zeta_3_3_1 gen_zeta_3_1_3 zeta_3_1_3_ok.
+    - zpos gen_zeta_3_3_2 zeta_3_3_2_ok.
+  Qed.
+End OnEvent.
+
+(* ================= the cyclic sum rule, at the level of the angles ======================= *)
+Lemma sum_rule_gen u a b c :
+  gram u a a = gram u b b + gram u c c + 2 * gram u b c ->
+  gram u b a = gram u b b + gram u b c ->
+  gram u a c = gram u c c + gram u b c ->
+  0 < gram u b b -> 0 < gram u c c -> 0 < gram u a a ->
+  (gram u b c)^2 <= gram u b b * gram u c c ->
+  acos (cosf u b a) + acos (cosf u a c) = acos (cosf u b c).
+Proof.
+  intros H1 H2 H3 PB PC PA CS. unfold cosf. rewrite H2, H3. rewrite H1 in *.
+  rewrite (Rmult_comm (sqrt (gram u b b)) (sqrt (gram u b b + gram u c c + 2 * gram u b c))).
+  now apply acos_sum.
+Qed.
+
+Section SumRule.
+  Variables E1 x1 y1 z1 E2 x2 y2 z2 E3 x3 y3 z3 m0 m1 m2 m3 m12 m13 m23 : R.
+  Hypothesis Hev : is_event E1 x1 y1 z1 E2 x2 y2 z2 E3 x3 y3 z3 m0 m1 m2 m3 m12 m13 m23.
+  Hypothesis Hint : interior x2 y2 z2 x3 y3 z3.
+  Let P1 := V4 E1 x1 y1 z1.  Let P2 := V4 E2 x2 y2 z2.  Let P3 := V4 E3 x3 y3 z3.
+  Let ρ := envD m0 m1 m2 m3 m12 m13 m23.
+
+  (* for each rotated state i: positivity of the three diagonal Gram values and Cauchy-Schwarz *)
+  Lemma gram_facts i : (1 <= i <= 3)%nat ->
+    let u := pmom P1 P2 P3 i in
+    let s1 := psub P1 P2 P3 1 in let s2 := psub P1 P2 P3 2 in let s3 := psub P1 P2 P3 3 in
+    0 < gram u s1 s1 /\ 0 < gram u s2 s2 /\ 0 < gram u s3 s3 /\
+    (gram u s1 s2)^2 <= gram u s1 s1 * gram u s2 s2 /\
+    (gram u s1 s3)^2 <= gram u s1 s1 * gram u s3 s3 /\
+    (gram u s2 s3)^2 <= gram u s2 s2 * gram u s3 s3.
+  Proof.
+    intros Hi. unfold P1, P2, P3.
+    destruct i as [|[|[|[|]]]]; try lia; cbv zeta; cbn [pmom psub].
+    - destruct (zeta_1_1_3_ok _ _ _ _ _ _ _ _ _ _ _ _ _ _ _ _ _ _ _ Hev Hint) as ((A1 & A2 & A3) & _).
+      destruct (zeta_1_2_1_ok _ _ _ _ _ _ _ _ _ _ _ _ _ _ _ _ _ _ _ Hev Hint) as ((B1 & B2 & B3) & _).
+      destruct (zeta_1_2_3_ok _ _ _ _ _ _ _ _ _ _ _ _ _ _ _ _ _ _ _ Hev Hint) as ((C1 & C2 & C3) & _).
+      cbv zeta in *. cbn [fst snd] in *. repeat split; try assumption.
+      rewrite (Rmult_comm (gram _ (vadd _ _) (vadd _ _))).
+      replace (gram (V4 E1 x1 y1 z1) (vadd (V4 E2 x2 y2 z2) (V4 E3 x3 y3 z3)) (vadd (V4 E1 x1 y1 z1) (V4 E3 x3 y3 z3)))
+        with (gram (V4 E1 x1 y1 z1) (vadd (V4 E1 x1 y1 z1) (V4 E3 x3 y3 z3)) (vadd (V4 E2 x2 y2 z2) (V4 E3 x3 y3 z3)))
+        by (v4_unfold; ring). exact B3.
+    - destruct (zeta_2_2_1_ok _ _ _ _ _ _ _ _ _ _ _ _ _ _ _ _ _ _ _ Hev Hint) as ((A1 & A2 & A3) & _).
+      destruct (zeta_2_3_2_ok _ _ _ _ _ _ _ _ _ _ _ _ _ _ _ _ _ _ _ Hev Hint) as ((B1 & B2 & B3) & _).
+      destruct (zeta_2_3_1_ok _ _ _ _ _ _ _ _ _ _ _ _ _ _ _ _ _ _ _ Hev Hint) as ((C1 & C2 & C3) & _).
+      cbv zeta in *. cbn [fst snd] in *. repeat split; try assumption.
+      + rewrite (Rmult_comm (gram _ (vadd _ _) (vadd _ _))).
+        replace (gram (V4 E2 x2 y2 z2) (vadd (V4 E2 x2 y2 z2) (V4 E3 x3 y3 z3)) (vadd (V4 E1 x1 y1 z1) (V4 E3 x3 y3 z3)))
+          with (gram (V4 E2 x2 y2 z2) (vadd (V4 E1 x1 y1 z1) (V4 E3 x3 y3 z3)) (vadd (V4 E2 x2 y2 z2) (V4 E3 x3 y3 z3)))
+          by (v4_unfold; ring). exact A3.
+      + rewrite (Rmult_comm (gram _ (vadd _ _) (vadd _ _))).
+        replace (gram (V4 E2 x2 y2 z2) (vadd (V4 E2 x2 y2 z2) (V4 E3 x3 y3 z3)) (vadd (V4 E1 x1 y1 z1) (V4 E2 x2 y2 z2)))
+          with (gram (V4 E2 x2 y2 z2) (vadd (V4 E1 x1 y1 z1) (V4 E2 x2 y2 z2)) (vadd (V4 E2 x2 y2 z2) (V4 E3 x3 y3 z3)))
+          by (v4_unfold; ring). exact C3.
+      + rewrite (Rmult_comm (gram _ (vadd _ _) (vadd _ _))).
+        replace (gram (V4 E2 x2 y2 z2) (vadd (V4 E1 x1 y1 z1) (V4 E3 x3 y3 z3)) (vadd (V4 E1 x1 y1 z1) (V4 E2 x2 y2 z2)))
+          with (gram (V4 E2 x2 y2 z2) (vadd (V4 E1 x1 y1 z1) (V4 E2 x2 y2 z2)) (vadd (V4 E1 x1 y1 z1) (V4 E3 x3 y3 z3)))
+          by (v4_unfold; ring). exact B3.
+    - destruct (zeta_3_3_2_ok _ _ _ _ _ _ _ _ _ _ _ _ _ _ _ _ _ _ _ Hev Hint) as ((A1 & A2 & A3) & _).
+      destruct (zeta_3_1_3_ok _ _ _ _ _ _ _ _ _ _ _ _ _ _ _ _ _ _ _ Hev Hint) as ((B1 & B2 & B3) & _).
+      destruct (zeta_3_1_2_ok _ _ _ _ _ _ _ _ _ _ _ _ _ _ _ _ _ _ _ Hev Hint) as ((C1 & C2 & C3) & _).
+      cbv zeta in *. cbn [fst snd] in *. repeat split; try assumption.
+      rewrite (Rmult_comm (gram _ (vadd _ _) (vadd _ _))).
+      replace (gram (V4 E3 x3 y3 z3) (vadd (V4 E1 x1 y1 z1) (V4 E3 x3 y3 z3)) (vadd (V4 E1 x1 y1 z1) (V4 E2 x2 y2 z2)))
+        with (gram (V4 E3 x3 y3 z3) (vadd (V4 E1 x1 y1 z1) (V4 E2 x2 y2 z2)) (vadd (V4 E1 x1 y1 z1) (V4 E3 x3 y3 z3)))
+        by (v4_unfold; ring). exact A3.
+  Qed.
+
+  Lemma zeta_sum_rule i j k : (1 <= i <= 3)%nat -> (1 <= j <= 3)%nat -> (1 <= k <= 3)%nat ->
+    i <> j -> i <> k -> j <> k ->
+    exists t1 t2 t3,
+      lookup3 zeta_tab i j k = Some (inl t1) /\ lookup3 zeta_tab i j i = Some (inl t2) /\
+      lookup3 zeta_tab i i k = Some (inl t3) /\ wdR ρ t1 /\ wdR ρ t2 /\ wdR ρ t3 /\
+      denR ρ t1 = denR ρ t2 + denR ρ t3.
+  Proof.
+    intros Hi Hj Hk Hij Hik Hjk.
+    destruct (zeta_geometric _ _ _ _ _ _ _ _ _ _ _ _ _ _ _ _ _ _ _ Hev Hint i j k Hi Hj Hk Hjk) as (t1 & L1 & W1 & D1).
+    destruct (zeta_geometric _ _ _ _ _ _ _ _ _ _ _ _ _ _ _ _ _ _ _ Hev Hint i j i Hi Hj Hi (not_eq_sym Hij)) as (t2 & L2 & W2 & D2).
+    destruct (zeta_geometric _ _ _ _ _ _ _ _ _ _ _ _ _ _ _ _ _ _ _ Hev Hint i i k Hi Hi Hk Hik) as (t3 & L3 & W3 & D3).
+    exists t1, t2, t3. repeat split; try assumption.
+    fold P1 P2 P3 in D1, D2, D3. fold ρ in D1, D2, D3. rewrite D1, D2, D3.
+    pose proof (gram_facts i Hi) as F. cbv zeta in F.
+    destruct F as (F1 & F2 & F3 & F12 & F13 & F23).
+    assert (S : forall b a c sg,
+      gram (pmom P1 P2 P3 i) a a = gram (pmom P1 P2 P3 i) b b + gram (pmom P1 P2 P3 i) c c + 2 * gram (pmom P1 P2 P3 i) b c ->
+      gram (pmom P1 P2 P3 i) b a = gram (pmom P1 P2 P3 i) b b + gram (pmom P1 P2 P3 i) b c ->
+      gram (pmom P1 P2 P3 i) a c = gram (pmom P1 P2 P3 i) c c + gram (pmom P1 P2 P3 i) b c ->
+      0 < gram (pmom P1 P2 P3 i) b b -> 0 < gram (pmom P1 P2 P3 i) c c -> 0 < gram (pmom P1 P2 P3 i) a a ->
+      (gram (pmom P1 P2 P3 i) b c)^2 <= gram (pmom P1 P2 P3 i) b b * gram (pmom P1 P2 P3 i) c c ->
+      sg * acos (cosf (pmom P1 P2 P3 i) b c)
+      = sg * acos (cosf (pmom P1 P2 P3 i) b a) + sg * acos (cosf (pmom P1 P2 P3 i) a c)).
+    { intros b a c sg G1 G2 G3 Q1 Q2 Q3 Q4.
+      rewrite <- (sum_rule_gen _ a b c G1 G2 G3 Q1 Q2 Q3 Q4). ring. }
+    destruct i as [|[|[|[|]]]], j as [|[|[|[|]]]], k as [|[|[|[|]]]]; try lia;
+      unfold zsign; cbn [nxt Nat.eqb orb pmom psub] in *;
+      apply S; try assumption; try (unfold P1, P2, P3; v4_unfold; ring).
+    all: rewrite (Rmult_comm (gram _ (vadd _ _) (vadd _ _)));
+      match goal with H : (?g)^2 <= ?r |- (?g')^2 <= ?r =>
+        replace g' with g by (unfold P1, P2, P3; v4_unfold; ring); exact H end.
+  Qed.
+End SumRule.
+
+(* ================= every arccosine argument is in range: wdR of EVERY generated tree ====== *)
+Lemma in123_spec i : (i < 4)%nat -> (in123 i = true <-> (1 <= i <= 3)%nat).
+Proof. intros H. destruct i as [|[|[|[|]]]]; try lia; cbn; split; intros; try lia; try discriminate; reflexivity. Qed.
+
+Lemma raises_false_inl (r : option res) t : r = Some (inl t) -> raises r = false.
+Proof. now intros ->. Qed.
+
+Section AllWd.
+  Variables E1 x1 y1 z1 E2 x2 y2 z2 E3 x3 y3 z3 m0 m1 m2 m3 m12 m13 m23 : R.
+  Hypothesis Hev : is_event E1 x1 y1 z1 E2 x2 y2 z2 E3 x3 y3 z3 m0 m1 m2 m3 m12 m13 m23.
+  Hypothesis Hint : interior x2 y2 z2 x3 y3 z3.
+  Let ρ := envD m0 m1 m2 m3 m12 m13 m23.
+
+  Lemma scat_all_wd i j t : (i < 4)%nat -> (j < 4)%nat ->
+    lookup2 scat_tab i j = Some (inl t) -> wdR ρ t.
+  Proof.
+    intros Hi Hj L. destruct (scat_errors i j Hi Hj) as (r & Lr & Er).
+    rewrite L in Lr. injection Lr as <-.
+    assert (R : scat_raises i j = false).
+    { destruct (scat_raises i j); [|reflexivity]. destruct (proj2 Er eq_refl) as [s Hs]. discriminate. }
+    unfold scat_raises in R. apply orb_false_iff in R as [R1 R2]. apply negb_false_iff in R1.
+    apply andb_true_iff in R1 as [Ri Rj]. apply in123_spec in Ri, Rj; try assumption.
+    apply Nat.eqb_neq in R2.
+    destruct (scat_geometric _ _ _ _ _ _ _ _ _ _ _ _ _ _ _ _ _ _ _ Hev Hint i j Ri Rj R2) as (t' & L' & W & _).
+    rewrite L in L'. injection L' as ->. exact W.
+  Qed.
+
+  Lemma that_all_wd i j t : (i < 4)%nat -> (j < 4)%nat ->
+    lookup2 that_tab i j = Some (inl t) -> wdR ρ t.
+  Proof.
+    intros Hi Hj L. pose proof (that_errors i j Hi Hj) as R. rewrite (raises_false_inl _ _ L) in R.
+    symmetry in R. unfold that_raises in R. apply negb_false_iff in R.
+    apply andb_true_iff in R as [Ri Rj]. apply in123_spec in Ri, Rj; try assumption.
+    destruct (Nat.eq_dec i j) as [->|N].
+    - rewrite (that_diag j Rj) in L. injection L as <-. exact I.
+    - destruct (that_geometric _ _ _ _ _ _ _ _ _ _ _ _ _ _ _ _ _ _ _ Hev Hint i j Ri Rj N) as (t' & L' & W & _).
+      rewrite L in L'. injection L' as ->. exact W.
+  Qed.
+
+  Lemma zeta_all_wd i j k t : (i < 4)%nat -> (j < 4)%nat -> (k < 4)%nat ->
+    lookup3 zeta_tab i j k = Some (inl t) -> wdR ρ t.
+  Proof.
+    intros Hi Hj Hk L.
+    assert (Main : forall k', (1 <= k' <= 3)%nat -> (1 <= i)%nat -> (1 <= j <= 3)%nat ->
+                   forall t', lookup3 zeta_tab i j k' = Some (inl t') -> wdR ρ t').
+    { intros k' Hk' Hi1 Hj1 t' L'.
+      destruct (zeta_struct i j k' Hi Hj ltac:(lia)) as (_ & _ & _ & Sd).
+      destruct (Nat.eq_dec j k') as [->|N].
+      - rewrite Sd in L'; [injection L' as <-; exact I|reflexivity|].
+        unfold zeta_raises. apply (in123_spec k' ltac:(lia)) in Hk'. rewrite Hk'.
+        destruct i; [lia|reflexivity].
+      - destruct (zeta_geometric _ _ _ _ _ _ _ _ _ _ _ _ _ _ _ _ _ _ _ Hev Hint i j k' ltac:(lia) Hj1 Hk' N)
+          as (t'' & L'' & W & _).
+        rewrite L' in L''. injection L'' as ->. exact W. }
+    destruct (zeta_struct i j k Hi Hj Hk) as (Sr & S0 & Sk & _).
+    rewrite (raises_false_inl _ _ L) in Sr. symmetry in Sr. unfold zeta_raises in Sr.
+    apply orb_false_iff in Sr as [Rj R2]. apply negb_false_iff in Rj. apply in123_spec in Rj; [|assumption].
+    destruct i as [|i'].
+    - rewrite (S0 eq_refl) in L. now apply (that_all_wd j k t).
+    - destruct k as [|k'].
+      + rewrite (Sk eq_refl ltac:(lia)) in L. apply (Main (S i')); try lia. exact L.
+      + apply (Main (S k')); try lia. exact L.
+  Qed.
+End AllWd.
+
+(* ================= non-vacuity: a concrete interior event ================================= *)
+(* p2 = (1; 1,0,0) massless, p3 = (5/4; 0,1,0) with m3 = 3/4, p1 = (3/2; -1,-1,0) with m1 = 1/2 *)
+Lemma example_event :
+  is_event (3/2) (-1) (-1) 0  1 1 0 0  (5/4) 0 1 0
+           (15/4) (1/2) 0 (3/4) (sqrt (21/4)) (sqrt (105/16)) (sqrt (49/16))
+  /\ interior 1 0 0 0 1 0.
+Proof.
+  unfold is_event, interior. cbv zeta.
+  assert (S1 : (sqrt (21/4))^2 = 21/4) by (apply pow2_sqrt; lra).
+  assert (S2 : (sqrt (105/16))^2 = 105/16) by (apply pow2_sqrt; lra).
+  assert (S3 : (sqrt (49/16))^2 = 49/16) by (apply pow2_sqrt; lra).
+  rewrite S1, S2, S3. v4_unfold. repeat split; lra.
+Qed.
+
+(* ================= massless rotated particle: no Wigner rotation =========================== *)
+Lemma cosf_lightlike u a b : mdot u u = 0 -> 0 < gram u a a -> 0 < gram u b b ->
+  0 <= mdot a u -> 0 <= mdot b u -> cosf u a b = 1.
+Proof.
+  unfold cosf, gram. intros H. rewrite H, !Rmult_0_l, !Rminus_0_r. intros Ga Gb Ha Hb.
+  replace (mdot a u * mdot a u) with ((mdot a u)^2) by ring.
+  replace (mdot b u * mdot b u) with ((mdot b u)^2) by ring.
+  rewrite !sqrt_pow2 by assumption.
+  assert (mdot a u <> 0) by (intros Z; rewrite Z in Ga; lra).
+  assert (mdot b u <> 0) by (intros Z; rewrite Z in Gb; lra).
+  field. split; assumption.
+Qed.
+
+Lemma zeta_massless_zero E1 x1 y1 z1 E2 x2 y2 z2 E3 x3 y3 z3 m0 m1 m2 m3 m12 m13 m23 :
+  is_event E1 x1 y1 z1 E2 x2 y2 z2 E3 x3 y3 z3 m0 m1 m2 m3 m12 m13 m23 ->
+  interior x2 y2 z2 x3 y3 z3 ->
+  forall i j k, (1 <= i <= 3)%nat -> (1 <= j <= 3)%nat -> (1 <= k <= 3)%nat -> j <> k ->
+  mdot (pmom (V4 E1 x1 y1 z1) (V4 E2 x2 y2 z2) (V4 E3 x3 y3 z3) i)
+       (pmom (V4 E1 x1 y1 z1) (V4 E2 x2 y2 z2) (V4 E3 x3 y3 z3) i) = 0 ->
+  exists t, lookup3 zeta_tab i j k = Some (inl t) /\
+            wdR (envD m0 m1 m2 m3 m12 m13 m23) t /\ denR (envD m0 m1 m2 m3 m12 m13 m23) t = 0.
+Proof.
+  intros Hev Hint i j k Hi Hj Hk Hjk Hm.
+  destruct (zeta_geometric _ _ _ _ _ _ _ _ _ _ _ _ _ _ _ _ _ _ _ Hev Hint i j k Hi Hj Hk Hjk) as (t & L & W & D).
+  exists t. split; [exact L|]. split; [exact W|]. rewrite D.
+  pose proof (gram_facts _ _ _ _ _ _ _ _ _ _ _ _ _ _ _ _ _ _ _ Hev Hint i Hi) as F. cbv zeta in F.
+  destruct F as (F1 & F2 & F3 & _).
+  destruct Hev as (HE1 & HE2 & HE3 & _ & _ & _ & _ & Hm1 & Hm2 & Hm3 & _).
+  pose proof (causal_of_sq m1 (V4 E1 x1 y1 z1) HE1 Hm1) as C1.
+  pose proof (causal_of_sq m2 (V4 E2 x2 y2 z2) HE2 Hm2) as C2.
+  pose proof (causal_of_sq m3 (V4 E3 x3 y3 z3) HE3 Hm3) as C3.
+  assert (Cu : causal (pmom (V4 E1 x1 y1 z1) (V4 E2 x2 y2 z2) (V4 E3 x3 y3 z3) i))
+    by (destruct i as [|[|[|[|]]]]; try lia; assumption).
+  assert (Cs : forall n, (1 <= n <= 3)%nat ->
+               causal (psub (V4 E1 x1 y1 z1) (V4 E2 x2 y2 z2) (V4 E3 x3 y3 z3) n))
+    by (intros n Hn; destruct n as [|[|[|[|]]]]; try lia; apply causal_add; assumption).
+  assert (Gp : forall n, (1 <= n <= 3)%nat ->
+               0 < gram (pmom (V4 E1 x1 y1 z1) (V4 E2 x2 y2 z2) (V4 E3 x3 y3 z3) i)
+                        (psub (V4 E1 x1 y1 z1) (V4 E2 x2 y2 z2) (V4 E3 x3 y3 z3) n)
+                        (psub (V4 E1 x1 y1 z1) (V4 E2 x2 y2 z2) (V4 E3 x3 y3 z3) n))
+    by (intros n Hn; destruct n as [|[|[|[|]]]]; try lia; assumption).
+  rewrite cosf_lightlike; [rewrite acos_1; ring|exact Hm|now apply Gp|now apply Gp| |];
+    apply causal_dot_nonneg; auto.
+Qed.
